@@ -14,7 +14,7 @@ UnZigZag(z) == LET d == NDivModSmall(z, 2) IN
                IF d.r = 0 THEN IMk(FALSE, d.q) ELSE IMk(TRUE, NAddSmall(d.q, 1))
 \* little-endian base-128 groups, continuation bit on all but the last
 VarBytes(z) == IF z = <<>> THEN <<0>>
-               ELSE [i \in 1..Len(z) |-> IF i < Len(z) THEN z[i] + 128 ELSE z[i]]
+               ELSE Mat([i \in 1..Len(z) |-> IF i < Len(z) THEN z[i] + 128 ELSE z[i]])
 VarintOf(x) == VarBytes(ZigZag(x))
 VarintNat(n) == VarintOf(IFromNat(n))
 VarintInt(n) == VarintOf(IFromInt(n))
@@ -25,7 +25,7 @@ VarEnd(B, p) == IF p > Len(B) THEN 0 ELSE IF B[p] < 128 THEN p ELSE VarEnd(B, p 
 ReadVar(B, p) ==
   LET e == VarEnd(B, p) IN
   IF e = 0 THEN [ok |-> FALSE]
-  ELSE LET z == NNorm([i \in 1..(e - p + 1) |-> B[p + i - 1] % 128])
+  ELSE LET z == NNorm(Mat([i \in 1..(e - p + 1) |-> B[p + i - 1] % 128]))
        IN [ok |-> TRUE, x |-> UnZigZag(z), p |-> e + 1, n |-> e - p + 1]
 
 \* ---- Encode (canonical layout) ---------------------------------------------------------
@@ -83,7 +83,7 @@ Enc(t0, v0, names, o) ==
     [] t.k = "union" ->
          LET c == ChooseBranch(t.br, v, names, o) IN
          IF c.st = "raise" THEN bad
-         ELSE IF c.st = "unspec" THEN [ok |-> FALSE, why |-> "unspec"]
+         ELSE IF c.st = "unspec" THEN [ok |-> FALSE, why |-> "unspec", amb |-> c.why]
          ELSE LET e == Enc(t.br[c.i], c.v, names, o) IN
               IF e.ok THEN EncOk(VarintNat(c.i - 1) \o e.b) ELSE e
 Encode(t, v, names, o) == Enc(t, v, names, o)
@@ -103,22 +103,24 @@ MtItems(t, xs, i, n, B, p, names, o, canon) ==      \* match n items starting wi
   ELSE MtItems(t, xs, i + 1, n - 1, B, Mt(t, xs[i], B, p, names, o, canon), names, o, canon)
 
 \* map entries: each entry's key must be a not-yet-used key of v (any order)
-RECURSIVE MtEntries(_, _, _, _, _, _, _, _, _)
-MtEntries(t, v, used, n, B, p, names, o, canon) ==    \* returns [p, used]
+\* UTF-8 encodings of the keys of dict v (<<>> for keys that are not text), computed once
+KeyEncs(v) == MapSeq(LAMBDA k : IF k.p = "str" /\ AllScalar(k.cp) THEN <<1>> \o Utf8Enc(k.cp) ELSE <<0>>, v.ks)
+RECURSIVE MtEntries(_, _, _, _, _, _, _, _, _, _)
+MtEntries(t, v, ke, used, n, B, p, names, o, canon) ==    \* returns [p, used]
   IF p = 0 \/ n = 0 THEN [p |-> p, used |-> used]
   ELSE LET len == ReadVar(B, p) IN
        IF ~len.ok \/ len.x.neg \/ ~NIsSmall(len.x.mag) THEN [p |-> 0, used |-> used]
        ELSE LET L == NToNat(len.x.mag)
                 kb == IF len.p + L - 1 <= Len(B) THEN SubSeq(B, len.p, len.p + L - 1) ELSE <<>>
-                cand == { j \in 1..Len(v.ks) : j \notin used /\ v.ks[j].p = "str" /\ AllScalar(v.ks[j].cp) /\ Utf8Enc(v.ks[j].cp) = kb }
+                cand == { j \in 1..Len(v.ks) : j \notin used /\ ke[j] = <<1>> \o kb }
             IN IF len.p + L - 1 > Len(B) \/ cand = {} THEN [p |-> 0, used |-> used]
                ELSE LET j == CHOOSE x \in cand : TRUE
                         q == Mt(t, v.vs[j], B, len.p + L, names, o, canon)
-                    IN MtEntries(t, v, used \cup {j}, n - 1, B, q, names, o, canon)
+                    IN MtEntries(t, v, ke, used \cup {j}, n - 1, B, q, names, o, canon)
 
 \* blocks of an array (isMap = FALSE; done = number of items already matched) or map (used = set of used entries)
-RECURSIVE MtBlocks(_, _, _, _, _, _, _, _, _)
-MtBlocks(t, v, isMap, done, used, B, p, names, o) ==
+RECURSIVE MtBlocks(_, _, _, _, _, _, _, _, _, _)
+MtBlocks(t, v, ke, isMap, done, used, B, p, names, o) ==
   LET total == IF isMap THEN Len(v.ks) ELSE Len(v.it)
       c == ReadVar(B, p)
   IN IF p = 0 \/ ~c.ok \/ ~NIsSmall(c.x.mag) THEN 0
@@ -128,10 +130,10 @@ MtBlocks(t, v, isMap, done, used, B, p, names, o) ==
               start == IF c.x.neg THEN (IF sz.ok THEN sz.p ELSE 0) ELSE c.p
           IN IF start = 0 THEN 0
              ELSE IF isMap THEN
-                  LET r == MtEntries(t, v, used, n, B, start, names, o, FALSE) IN
-                  IF Cardinality(used) + n > total THEN 0 ELSE MtBlocks(t, v, TRUE, 0, r.used, B, r.p, names, o)
+                  LET r == MtEntries(t, v, ke, used, n, B, start, names, o, FALSE) IN
+                  IF Cardinality(used) + n > total THEN 0 ELSE MtBlocks(t, v, ke, TRUE, 0, r.used, B, r.p, names, o)
              ELSE IF done + n > total THEN 0
-                  ELSE MtBlocks(t, v, FALSE, done + n, {}, B, MtItems(t, v.it, done + 1, n, B, start, names, o, FALSE), names, o)
+                  ELSE MtBlocks(t, v, ke, FALSE, done + n, {}, B, MtItems(t, v.it, done + 1, n, B, start, names, o, FALSE), names, o)
 
 Mt(t0, v0, B, p, names, o, canon) ==
   LET t == Deref(t0, names)
@@ -145,14 +147,14 @@ Mt(t0, v0, B, p, names, o, canon) ==
          ELSE IF canon THEN
               IF Len(v.it) = 0 THEN After(B, p, <<0>>)
               ELSE After(B, MtItems(t.items, v.it, 1, Len(v.it), B, After(B, p, VarintNat(Len(v.it))), names, o, TRUE), <<0>>)
-         ELSE MtBlocks(t.items, v, FALSE, 0, {}, B, p, names, o)
+         ELSE MtBlocks(t.items, v, <<>>, FALSE, 0, {}, B, p, names, o)
     [] t.k = "map" ->
          IF v.p # "dict" THEN 0
          ELSE IF canon THEN
               IF Len(v.ks) = 0 THEN After(B, p, <<0>>)
-              ELSE LET r == MtEntries(t.values, v, {}, Len(v.ks), B, After(B, p, VarintNat(Len(v.ks))), names, o, TRUE)
+              ELSE LET r == MtEntries(t.values, v, KeyEncs(v), {}, Len(v.ks), B, After(B, p, VarintNat(Len(v.ks))), names, o, TRUE)
                    IN After(B, r.p, <<0>>)
-         ELSE MtBlocks(t.values, v, TRUE, 0, {}, B, p, names, o)
+         ELSE MtBlocks(t.values, v, KeyEncs(v), TRUE, 0, {}, B, p, names, o)
     [] t.k = "record" ->
          IF v.p # "dict" THEN 0
          ELSE FoldLeft(LAMBDA q, f : IF q = 0 THEN 0
